@@ -64,8 +64,8 @@ RestartBG(back) ==
                   /\ (ReadIter(listing, ri) < Max(DOMAIN ffiles) => mode.sym)  \* going back without symmetry re-creates (not re-uses) the later points
                   /\ StartRestart([par |-> p, dump |-> d, allow |-> (a \/ d), sym |-> mode.sym, restart |-> TRUE], n, listing, ri)
             /\ UNCHANGED mcvars
-RestartBLatest == RestartBG(FALSE)
-RestartBBack   == RestartBG(TRUE)
+RestartBLatest == phase = "B" /\ RestartBG(FALSE)     \* (conjunctions, so that TLC's coverage reports them under these names)
+RestartBBack   == phase = "B" /\ RestartBG(TRUE)
 RestartB       == RestartBLatest \/ RestartBBack
 RefineB == /\ phase = "B" /\ it + start + 1 <= Len(script)
            /\ \E ord \in Orders : CellsOf(ord) = script[it + start + 1] /\ Refine(ord)
